@@ -86,7 +86,7 @@ theorem exHyp (g1 g2 : String) (h : g1 ∈ exGsS ∧ g2 ∈ exGsS) :
   have h2 : exGsS.contains g2 = true := by simpa using h.2
   have i1 : ∀ g, g ∈ exGsS → exCtxS.inScript "Latn" g = true := by decide +kernel
   have f1 : ∀ g1 ∈ exGsS, ∀ g2 ∈ exGsS, featOn exCtxS exRegS true false "Latn" g1 g2 = true := by decide +kernel
-  simp only [e2eHyp, exPairs, exNames, hc, h1, h2, i1 g1 h.1, i1 g2 h.2, f1 g1 h.1 g2 h.2, Bool.and_true]
+  simp only [e2eHyp, hc, h1, h2, i1 g1 h.1, i1 g2 h.2, f1 g1 h.1 g2 h.2, Bool.and_true]
   decide +kernel
 
 /-- non-vacuity of `C05_end_to_end`: glyph-glyph exception, glyph-class exception, class pair, and a pair without kerning -/
@@ -145,7 +145,7 @@ theorem exHypH : e2eHyp exCtxH exRegH exGsH [] exKerningH 1 none false true fals
     rw [hdet]
     simp only [cellsOf, pairLists, Bool.false_eq_true, if_false, flatMap_cons, flatMap_nil, append_nil, exPartH]
     decide +kernel
-  simp only [e2eHyp, exPairsH, hn, hc, Bool.and_true]
+  simp only [e2eHyp, hc, Bool.and_true]
   decide +kernel
 
 /-- non-vacuity of `C05_end_to_end`, right-to-left: advance and placement -/
@@ -155,6 +155,24 @@ example : applyKern (program exCtxH exRegH exGsH [] exKerningH 1 none false true
   have hd : (exCtxH.dir "Hebr" == "RTL") = true := by decide +kernel
   have ea : ufoKern [] exKerningH "alef-hb" "bet-hb" = -20 := by decide +kernel
   simp only [e2eExpected, hd, if_true, ea] at a
+  exact a
+
+/-- non-vacuity of `C05_end_to_end_lang`: Turkish declared for `latn`; another feature declares `cyrl` and a `DFLT`/`TRK ` LangSys -/
+def exRegL : RegCtx := { dist := [], otTags := [("Latn", ["latn"])], langs := [("latn", ["dflt", "TRK "])] }
+
+example :
+    applyKernLang { tags := ["cyrl"], langSys := [("DFLT", "TRK ")] }
+      (program exCtxS exRegL exGsS exGroupsS exKerningS 1 none false true false) "latn" "TRK " "A" "W" = (quantize (-7) 1, 0) := by
+  have hd : (exCtxS.dir "Latn" == "RTL") = false := by decide +kernel
+  have hh : e2eHyp exCtxS exRegL exGsS exGroupsS exKerningS 1 none false true false "Latn" "latn" "A" "W" = true := by
+    have := exHyp "A" "W" (by decide)
+    simp only [e2eHyp, Bool.and_eq_true] at this ⊢
+    obtain ⟨⟨⟨⟨⟨⟨⟨⟨⟨⟨a1, a2⟩, a3⟩, a4⟩, a5⟩, _⟩, a7⟩, a8⟩, _⟩, a10⟩, a11⟩ := this
+    exact ⟨⟨⟨⟨⟨⟨⟨⟨⟨⟨a1, a2⟩, a3⟩, a4⟩, a5⟩, by decide +kernel⟩, a7⟩, a8⟩, by decide +kernel⟩, a10⟩, a11⟩
+  have a := C05_end_to_end_lang_bundled { tags := ["cyrl"], langSys := [("DFLT", "TRK ")] } exCtxS exRegL exGsS exGroupsS exKerningS 1
+    none false true false "Latn" "latn" "TRK " "A" "W" hh (by decide +kernel)
+  have eb : ufoKern exGroupsS exKerningS "A" "W" = -7 := by decide +kernel
+  simp only [e2eExpected, hd, Bool.false_eq_true, if_false, eb] at a
   exact a
 
 end Ufo2ft.C05
